@@ -457,12 +457,18 @@ pub fn run_c17_vamm(run: &mut Run, tier: &Tier) {
 
 // ------------------------------------------------------------------------------------------ C18 (vAMM)
 fn alpha_c18(m: &VModel, w: &mut VWorld, s: &VSt) -> Vec<VAct> {
-    let _ = (w, s);
+    w.restore(&s.snap);
     let mut acts = vec![];
     for a in &m.amounts {
         acts.push(VAct::SwapIn { add: true, quote: *a, limit: 0, over: true });
         acts.push(VAct::SwapIn { add: false, quote: *a, limit: 0, over: true });
     }
+    // the trade that takes the net position back to zero (several trades of one block can net out exactly)
+    let tps = itoi(&w.state().total_position_size);
+    if tps != 0 {
+        acts.push(VAct::SwapOut { add: tps > 0, base: tps.unsigned_abs(), limit: 0 });
+    }
+    acts.push(VAct::Settle);
     for sx in &m.secs {
         acts.push(VAct::Blk { secs: *sx });
     }
@@ -504,7 +510,10 @@ fn step_c18(m: &VModel, w: &mut VWorld, s: &VSt, a: &VAct, out: &mut StepOut) ->
         let (_, q, b, ts, hh) = snaps[0];
         mon = json!({"hist": [[hh, ts, (q * dec(&m.cfg) / b) as u64]]});
     }
-    if o.ok && !matches!(a, VAct::Blk { .. }) {
+    if matches!(a, VAct::Settle) {
+        out.tag(if o.ok { "c18:funding-settlements-ok" } else { "c18:funding-settlements-refused" });
+    }
+    if o.ok && !matches!(a, VAct::Blk { .. } | VAct::Settle) {
         let p = w.spot() as u64;
         let hist = mon["hist"].as_array_mut().unwrap();
         if hist.last().unwrap()[0].as_u64() == Some(h) {
@@ -716,7 +725,7 @@ pub fn run_c18(tier: Tier) -> i32 {
         oracle: step_c18,
         alpha: alpha_c18,
         init_mon: Value::Null,
-        amounts: tier.pick(vec![7 * dd + 3, 150 * dd], vec![7 * dd + 3, 40 * dd, 150 * dd]),
+        amounts: tier.pick(vec![7 * dd + 3, 250 * dd], vec![7 * dd + 3, 40 * dd, 250 * dd]),
         secs: tier.pick(vec![0, 1, 15, 899, 900, 3600, 691_200], vec![0, 1, 15, 899, 900, 3600, 691_200]),
     };
     run.explore("vAMM TWAP", vparams(&m), &m, &[vec![]], &Limits::new(tier.pick(5, 6)));
